@@ -212,6 +212,62 @@ def big_shapes(prop, tier, seed, jobs):
     return len(results), None
 
 
+def dead_child(shape, n, chords, act, at, seed, timeout=300):
+    cmd = [D.BIN, "scale", "--shape", shape, "--n", str(n), "--stack-kb", "256", "--chords", str(chords), "--seed", str(seed), "--dead-act", act, "--dead-at", str(at)]
+    try:
+        r = subprocess.run(cmd, stdout=subprocess.PIPE, stderr=subprocess.PIPE, timeout=timeout)
+    except subprocess.TimeoutExpired:
+        return {"error": "timeout", "_code": None}
+    j = {"_code": r.returncode}
+    for line in r.stdout.decode(errors="replace").splitlines():
+        if line.startswith("{"):
+            j.update(json.loads(line))
+    return j
+
+
+def judge_dead(sc, j):
+    shape, n, chords, act, at = sc
+    what = f"{shape} of {n} objects (+{chords} chords), destructor #{at} onwards {'clones' if act == 'clone' else 'drops'} its stored handles to dying members"
+    if j.get("error") == "timeout":
+        return ("hang", "big-dead-handle-timeout", what + ": no result in time")
+    if act == "clone":
+        if j.get("type") == "dead-clone-returned":
+            return ("abort-missing", "big-group-dead-clone-returned", what + f": Rc::clone returned in destructor #{j.get('ord')} (strong count through the new handle {j.get('strong')}); the process must abort instead")
+        if j["_code"] is not None and j["_code"] >= 0:
+            return ("abort-missing", "big-group-dead-clone-no-abort", what + f": the process ended with code {j['_code']} instead of aborting inside Rc::clone")
+        return None
+    if j["_code"] != 0 or j.get("type") != "scale":
+        return ("crash", "big-group-dead-drop-crashed", what + f": the process did not complete (code {j['_code']}); dropping a handle to a destroyed member must be a no-op")
+    if j["destroyed"] != n or j["double"] != 0:
+        return ("double-destruction" if j["double"] else "not-collected", "big-group-dead-drop", what + f": {j['destroyed']} destroyed, {j['double']} twice")
+    return None
+
+
+def big_dead(tier, seed, jobs):
+    """C16 for groups the enumerated child-process scenarios cannot hold (thousands of
+    members, so that teardown code that works in chunks or grows its worklists is
+    exercised): returns (scenarios, first failure or None)."""
+    import concurrent.futures as cf
+    import random
+    rng = random.Random(seed * 104729 + 5)
+    sc = []
+    sizes = [1100, 2500, 5000] + ([20000, 70000] if tier == "thorough" else [])
+    for n in sizes:
+        for shape in ("ring", "mstar", "cliques"):
+            m = n + rng.randrange(0, 64)
+            chords = 2 * m if shape == "ring" else 0
+            for act in ("clone", "drop"):
+                for at in (0, rng.randrange(1, m // 2), rng.randrange(m // 2, m - 1)):
+                    sc.append((shape, m, chords, act, at))
+    fails = None
+    with cf.ThreadPoolExecutor(max_workers=min(jobs, 8)) as ex:
+        for s, j in zip(sc, ex.map(lambda s: dead_child(s[0], s[1], s[2], s[3], s[4], seed), sc)):
+            v = judge_dead(s, j)
+            if v and not fails:
+                fails = (s, v)
+    return len(sc), fails
+
+
 def check(prop, tier, seed, jobs):
     if prop == "C15":
         return check_c15(tier, seed, jobs)
@@ -232,6 +288,32 @@ def replay(rec, path, quiet=False):
                 pb = max(j["drop_us"], 1) / (j["n"] + j["edges"])
                 if pb / pa > 6 and pb > 2.0:
                     v = ("nonlinear", "time-per-object-grows", f"time per object+adoption grew from {pa:.3f}us at N={n0} to {pb:.3f}us at N={j['n']} (x{pb / pa:.1f})")
+        if v:
+            if not quiet:
+                print(f"violation kind={v[0]} cause={v[1]} msg={v[2]}")
+                print(f"VIOLATION property={rec['property']} replay={path}")
+            return 1, {"type": "violation", "kind": v[0], "cause": v[1], "msg": v[2], "props": [rec["property"]]}
+        if not quiet:
+            print(f"replay of {path}: no violation")
+        return 0, {"type": "ok"}
+    if rec.get("engine") == "soak":
+        r = subprocess.run([D.BIN2, "soak", "--max-pow", str(rec.get("max_pow", 24))], stdout=subprocess.PIPE, stderr=subprocess.DEVNULL)
+        sj = next((json.loads(l) for l in r.stdout.decode(errors="replace").splitlines() if l.startswith("{")), None)
+        if sj is None:
+            D.eprint("HARNESS-ERROR soak replay produced no result")
+            return 2, {}
+        if sj["failures"]:
+            f0 = sj["failures"][0]
+            if not quiet:
+                print(f"violation kind=not-collected cause=long-lived-object-across-many-traces msg=witness last traced 2^{f0['pow']}{f0['off']:+d} traces earlier: {f0['what']}")
+                print(f"VIOLATION property={rec['property']} replay={path}")
+            return 1, {"type": "violation", "kind": "not-collected", "cause": "long-lived-object-across-many-traces", "props": [rec["property"]]}
+        if not quiet:
+            print(f"replay of {path}: no violation")
+        return 0, {"type": "ok"}
+    if rec.get("engine") == "bigdead":
+        s = (rec["shape"], rec["n"], rec.get("chords", 0), rec["act"], rec["at"])
+        v = judge_dead(s, dead_child(*s, rec.get("seed", 1)))
         if v:
             if not quiet:
                 print(f"violation kind={v[0]} cause={v[1]} msg={v[2]}")
